@@ -22,7 +22,7 @@ def mechanism(f):
     if f["stmt"] == "arith":
         bases = {f["lt"].split("(")[0], f["rt"].split("(")[0]}
         return "int_uint_arith" if bases == {"Int", "UInt"} else "arith:" + "/".join(sorted(bases))
-    if f["form"] == "lit" and f.get("vw") == "2im":
+    if f["form"] == "lit" and f.get("vw") in ("2im", "-2 im"):
         return "imaginary_int_literal"
     if k == "unconverted" and f["stmt"] == "decl" and f["form"] in ("constvar", "call", "cast") and f["tb"] == f["vb"]:
         return "narrow_const_value"
